@@ -440,24 +440,6 @@ func checkResultDirect(r *settlement.Result, pc *PCaller, who string, res *sim.R
 		}
 		bad("wrong-payout", fmt.Sprintf("%s seat %d received %d, reference allows %d..%d; contributions=%v fold=%v score=%v changed=%v", who, k, net, lo[k], hi[k], c, pc.Fold, pc.Score, changed))
 	}
-	for pi, pr := range r.Pots {
-		if len(pr.Winners) < 2 {
-			continue
-		}
-		mn, mx := pr.Winners[0].Withdraw, pr.Winners[0].Withdraw
-		for _, w := range pr.Winners {
-			if w.Withdraw < mn {
-				mn = w.Withdraw
-			}
-			if w.Withdraw > mx {
-				mx = w.Withdraw
-			}
-		}
-		if mx-mn > 1 {
-			bad("tied-winners-differ>1 (remainders handed out per contribution level instead of per pot)",
-				fmt.Sprintf("%s result pot %d total %d winners withdraw between %d and %d; contributions=%v fold=%v score=%v", who, pi, pr.Total, mn, mx, c, pc.Fold, pc.Score))
-		}
-	}
 }
 
 // Mixed serves C02 and C16: most runs are simulated hands (world E), one in
